@@ -452,6 +452,10 @@ class Tracer:
             cls, (seq, extra) = st.__reduce__()
             seq = list(seq)
             seq[2] = devno[t.dev(phys)]
+            # inode numbers are unique within ONE file system only: the first directory made on each fresh volume - its
+            # .Trash-$uid, say - has the same number on all of them
+            if os.path.basename(phys).startswith(b".Trash-") and os.path.dirname(phys) in t.mounts_real and len(vols) > 1:
+                seq[1] = 2
             return os.stat_result(tuple(seq), extra)
 
         def phys_of(path, dir_fd, follow):
@@ -739,6 +743,18 @@ def child_main(sb, world, plan, wfd, gate=None):
         tracer.on_crash = on_crash
         tracer.install()
         t0 = time.time()
+        if plan.get("reclimit"):
+            # a small allowance of interpreter stack on top of what the harness itself uses: routines that call themselves
+            # once per directory level (shutil.rmtree) give up on a modest tree, as they do on a very deep one otherwise
+            import inspect
+            sys.setrecursionlimit(len(inspect.stack(0)) + plan["reclimit"])
+        fsize_old = None
+        if plan.get("fsize") is not None:
+            # the kernel itself refuses to let regular files grow beyond this size (EFBIG; SIGXFSZ is ignored, as in every
+            # Python process): a write fault that reaches the program whatever routine it writes with
+            import resource
+            fsize_old = resource.getrlimit(resource.RLIMIT_FSIZE)
+            resource.setrlimit(resource.RLIMIT_FSIZE, (plan["fsize"], fsize_old[1]))
         try:
             rc = mod.main()
             result["exit"] = 0 if rc is None else rc
@@ -751,6 +767,8 @@ def child_main(sb, world, plan, wfd, gate=None):
             result["exc"] = type(e).__name__
             harness_err.write("Traceback (most recent call last):\n%s: %s\n" % (type(e).__name__, e))
             result["tb"] = traceback.format_exc()[-1500:]
+        if fsize_old is not None:
+            resource.setrlimit(resource.RLIMIT_FSIZE, fsize_old)
         result["t0"], result["t1"] = t0, time.time()
         tracer.internal += 1
         if plan and plan.get("states"):
